@@ -256,6 +256,12 @@ def run(ctx):
     for i in range(4 if ctx.quick else 80):
         explore2.explore(ctx, "C02", r.fork(), kindsA=(["new", "set+state", "claim_oldest", "sequence", "plan", "compact", "prune", "claim_id"][i % 8],), kindsB=("compact", "plan"),
                          max_points=(5 if ctx.quick else 40), legacy=True, b_modes=("complete",))
+    # two writers of every kind on a store whose log ends in a killed writer's fragment (the first to write replaces the file) or whose lock file is missing
+    rt = gen.Rng(ctx.seed * 1000003 + 203)
+    for i in range(4 if ctx.quick else 80):
+        ka = (["new", "set+state", "claim_oldest", "new+state", "sequence", "prune"][i % 6],)
+        explore2.explore(ctx, "C02", rt.fork(), kindsA=ka, kindsB=("new", "set", "claim_oldest", "new+state"), max_points=(6 if ctx.quick else 40), state_cmds=8,
+                         torn=(i % 3 != 2), missing_lock=(i % 3 == 2))
     # an acknowledged write is in the log: when the operating system refuses or cuts short the write (ENOSPC, EIO, file size limit), the command
     # must not report success — the next command would decide on a state its predecessor was told it had changed
     from . import c10
